@@ -243,6 +243,22 @@ func renderInto(kind int, f func(w io.Writer) error) (string, error) {
 	}
 }
 
+// refusedEverywhere hands a render that must be refused a destination of every healthy kind, and the value
+// io.Discard itself: a refusal does not depend on where the output would have gone.  It returns a description of
+// the first destination for which the render was not refused (or wrote something), or "".
+func refusedEverywhere(f func(w io.Writer) error) string {
+	if err := f(io.Discard); err == nil {
+		return "RenderTo(io.Discard) returned nil"
+	}
+	for k := range destKindNames {
+		out, err := renderInto(k, f)
+		if err == nil || out != "" {
+			return fmt.Sprintf("RenderTo into %s wrote %q and returned error %v", destKindNames[k], out, err)
+		}
+	}
+	return ""
+}
+
 // ---- programs that link only part of the library (cmd/minprog): what a style or a package-level function does
 // must not depend on what else the program imports
 
